@@ -55,30 +55,81 @@ namespace
         }
     };
 
-    std::string coarse_cfg(const std::vector<OpSpec>& ops)
+    // What a sequence means for the properties that speak of specific arrangements (C01: "priority-flood ahead of a
+    // router, or the spanning-tree resolver after a single-direction router"; C02: the filled surface).  A small state
+    // machine over the operators; arrangements the statements do not speak of make the corresponding clause not
+    // applicable (never "violated"):
+    //  - a router produces routes on the current elevation; they are resolved when that elevation is a filled one;
+    //  - priority-flood fills whatever elevation it is given; routes computed before it are stale afterwards (they
+    //    describe the elevation the earlier router saw, not the returned one);
+    //  - the spanning-tree resolver is specified on routes that come straight from a single-direction router (snapshots
+    //    in between do not matter); anywhere else (after another resolver, on stale routes) neither the routes nor the
+    //    elevation it leaves are covered by a statement.
+    struct SeqSem
     {
+        bool c01 = false;        // final routes are fresh (describe the returned elevation) and resolved
+        bool c02 = false;        // returned elevation is a filled surface of the input
+        int fills = 0;           // number of fill passes applied (each may add one increment per node)
+        std::string cfg = "none+none";  // fill in effect + router placed after it
+    };
+
+    SeqSem analyze(const std::vector<OpSpec>& ops)
+    {
+        enum class Elev { raw, filled, unknown };
+        Elev elev = Elev::raw;
+        bool have = false, fresh = false, from_single_router = false, resolved = false, c02_ok = true;
         std::string res = "none", down = "none";
-        bool after = false;
+        int fills = 0;
         for (auto& o : ops)
         {
-            if (o.kind == OpKind::pflood)
+            if (o.kind == OpKind::single || o.kind == OpKind::single_par || o.kind == OpKind::multi)
             {
+                have = fresh = true;
+                from_single_router = o.kind != OpKind::multi;
+                resolved = elev == Elev::filled;
+                down = elev == Elev::raw ? "none" : (o.kind == OpKind::multi ? "multi" : "single");
+            }
+            else if (o.kind == OpKind::pflood)
+            {
+                elev = Elev::filled;
                 res = "pflood";
-                after = true;
                 down = "none";
+                ++fills;
+                fresh = false;
             }
             else if (o.kind == OpKind::mst)
             {
-                res = std::string("mst-") + (o.rm == fs::mst_route_method::basic ? "basic" : "carve");
-                after = true;
-                down = "none";
+                if (have && fresh && from_single_router)
+                {
+                    elev = Elev::filled;
+                    res = std::string("mst-") + (o.rm == fs::mst_route_method::basic ? "basic" : "carve");
+                    down = "none";
+                    ++fills;
+                    resolved = true;
+                    from_single_router = false;
+                }
+                else
+                {
+                    elev = Elev::unknown;
+                    c02_ok = false;
+                    fresh = false;
+                    resolved = false;
+                    res = "unspecified";
+                    down = "none";
+                }
             }
-            else if (after && (o.kind == OpKind::single || o.kind == OpKind::single_par))
-                down = "single";
-            else if (after && o.kind == OpKind::multi)
-                down = "multi";
         }
-        return res + "+" + down;
+        SeqSem r;
+        r.c01 = have && fresh && resolved;
+        r.c02 = c02_ok && fills > 0 && elev == Elev::filled;
+        r.fills = fills;
+        r.cfg = res + "+" + down;
+        return r;
+    }
+
+    std::string coarse_cfg(const std::vector<OpSpec>& ops)
+    {
+        return analyze(ops).cfg;
     }
 
     bool final_single(const std::vector<OpSpec>& ops)
@@ -107,6 +158,21 @@ namespace
                 r = 3;  // re-routed by the resolver: not a pure router result
         }
         return r;
+    }
+
+    // true when some operator edits the elevation after the last router: the returned elevation is then not the
+    // one that router saw (C04 / C05 compare the tables with the elevation the router saw)
+    bool elevation_edited_after_last_router(const std::vector<OpSpec>& ops)
+    {
+        bool edited = false;
+        for (auto& o : ops)
+        {
+            if (o.kind == OpKind::single || o.kind == OpKind::single_par || o.kind == OpKind::multi)
+                edited = false;
+            else if (o.kind == OpKind::pflood || o.kind == OpKind::mst)
+                edited = true;
+        }
+        return edited;
     }
 
     bool has_resolver(const std::vector<OpSpec>& ops)
@@ -276,7 +342,7 @@ namespace
         return L;
     }
 
-    void check_c02(const Ctx& c)
+    void check_c02(const Ctx& c, int fills)
     {
         const std::size_t n = c.S.n;
         const char* P = "C02";
@@ -316,7 +382,7 @@ namespace
                 c.fail(P, "below_spill_level/" + c.cfg, "node " + std::to_string(i) + " z=" + jhex(z) + " h=" + jhex(h) + " spill=" + jhex(L[i]));
                 return;
             }
-            if (ex > static_cast<std::int64_t>(n))
+            if (ex > static_cast<std::int64_t>(n) * std::max(1, fills))  // one increment per node and fill pass
             {
                 c.fail(P, "above_spill_level/" + c.cfg, "node " + std::to_string(i) + " z=" + jhex(z) + " h=" + jhex(h) + " spill=" + jhex(L[i]) + " excess_ulps=" + std::to_string(ex));
                 return;
@@ -1225,6 +1291,66 @@ namespace
         }
     }
 
+    // a random valid operator sequence (1-5 operators, validity decided by the rules of C20): reaches
+    // combinations no hand-written family lists ([single, single, mst], [pflood, pflood, multi], [multi, single, mst, multi], ...)
+    std::vector<OpSpec> gen_ops_random_valid(Rng& rng, bool need_resolver)
+    {
+        for (int tries = 0; tries < 200; ++tries)
+        {
+            std::vector<OpSpec> ops;
+            int len = static_cast<int>(rng.range(1, 5));
+            int dir = 0;  // 0 undefined, 1 single, 2 multi
+            bool updated = false, resolver = false, ok = true;
+            int nsnap = 0;
+            for (int k = 0; k < len && ok; ++k)
+            {
+                switch (rng.below(7))
+                {
+                    case 0:
+                        ops.push_back(op_single());
+                        dir = 1;
+                        updated = true;
+                        break;
+                    case 1:
+                        ops.push_back(op_single_par(static_cast<int>(rng.range(2, 4))));
+                        dir = 1;
+                        updated = true;
+                        break;
+                    case 2:
+                        ops.push_back(op_multi(rnd_p(rng)));
+                        dir = 2;
+                        updated = true;
+                        break;
+                    case 3:
+                        ops.push_back(op_pflood());
+                        resolver = true;
+                        break;
+                    case 4:
+                        if (dir != 1)
+                            ok = false;
+                        else
+                        {
+                            ops.push_back(op_mst(rnd_bm(rng), rnd_rm(rng)));
+                            resolver = true;
+                        }
+                        break;
+                    case 5:
+                        if (dir == 0)
+                            ok = false;
+                        else
+                            ops.push_back(op_snap("g" + std::to_string(nsnap++), true, rng.chance(0.3)));
+                        break;
+                    default:
+                        ops.push_back(op_snap("e" + std::to_string(nsnap++), false, true));
+                        break;
+                }
+            }
+            if (ok && updated && dir != 0 && (!need_resolver || resolver))
+                return ops;
+        }
+        return { op_pflood(), op_single() };
+    }
+
     std::vector<OpSpec> gen_ops(Rng& rng, const std::string& fam)
     {
         std::vector<OpSpec> ops;
@@ -1257,6 +1383,8 @@ namespace
         }
         else if (fam == "resolver")
         {
+            if (rng.chance(0.15))
+                return gen_ops_random_valid(rng, true);
             double u = rng.u01();
             if (u < 0.2)
                 ops = { op_pflood(), rnd_single(rng) };
@@ -1288,6 +1416,8 @@ namespace
         else
         {
             // any valid family
+            if (rng.chance(0.3))
+                return gen_ops_random_valid(rng, false);
             static const char* fams[] = { "C04", "C05", "resolver", "single_final" };
             ops = gen_ops(rng, fams[rng.below(4)]);
             return ops;
@@ -1409,9 +1539,25 @@ namespace
             if (R.want_sample())
                 R.sample(JObj().raw("grid", env.g.json(40)).raw("operators", ops_json(ops)).i("update_no", s).raw("inputs", inputs_json(in, 40)).str());
             if (R.want("C06"))
+            {
                 check_c06(c);
-            const bool resolver = has_resolver(ops);
-            if (resolver && R.want("C01"))
+                // graph snapshots are flow graphs: their tables must be mutually consistent as well
+                for (auto& o : ops)
+                    if (o.kind == OpKind::snap && o.save_graph)
+                    {
+                        GState SS = extract(graph.graph_snapshot(o.name).impl());
+                        if (!SS.shapes_ok)
+                            continue;
+                        C06Stats st;
+                        for (auto& kv : c06_violations(SS, st))
+                            c.fail("C06", "snapshot:" + kv.first, "graph snapshot " + o.name + ": " + kv.second);
+                        R.count("c06.snapshot_states_checked");
+                    }
+            }
+            const SeqSem sem = analyze(ops);
+            if (!sem.c01 && has_resolver(ops))
+                R.count("c01.sequences_outside_the_statement");
+            if (sem.c01 && R.want("C01"))
             {
                 check_c01(c);
                 // non-trivial: the input had a pit that is not a base level
@@ -1432,8 +1578,8 @@ namespace
                     R.count("c01.states_with_input_pits");
                 }
             }
-            if (resolver && R.want("C02"))
-                check_c02(c);
+            if (sem.c02 && R.want("C02"))
+                check_c02(c, sem.fills);
             if (R.want("C03"))
             {
                 check_c03(c, graph, rng);
@@ -1448,9 +1594,10 @@ namespace
                     }
             }
             int lr = last_router(ops);
-            if (lr == 1 && R.want("C04"))
+            const bool router_saw_returned_elevation = !elevation_edited_after_last_router(ops);
+            if (lr == 1 && router_saw_returned_elevation && R.want("C04"))
                 check_c04(c);
-            if (lr == 2 && R.want("C05"))
+            if (lr == 2 && router_saw_returned_elevation && R.want("C05"))
             {
                 double p = 1;
                 for (auto& o : ops)
